@@ -119,6 +119,11 @@ fn guard_walk<T: Flt>(count: &mut u64) -> Result<(), String> {
     let out = std::io::stdout();
     for len in [8usize, 16, 64, 72, 256, 1024] {
         for os in [1usize, 2, 256] {
+            {
+                let mut o = out.lock();
+                let _ = writeln!(o, "AT constructing the scalar, SSE and AVX interpolators: {} len {} os {}", T::NAME, len, os);
+                let _ = o.flush();
+            }
             let scalar = ScalarInterpolator::<T>::new(len, os, 0.93, WindowFunction::BlackmanHarris2);
             let sse = SseInterpolator::<T>::new(len, os, 0.93, WindowFunction::BlackmanHarris2).map_err(|e| e.to_string())?;
             let avx = AvxInterpolator::<T>::new(len, os, 0.93, WindowFunction::BlackmanHarris2).map_err(|e| e.to_string())?;
@@ -176,7 +181,8 @@ fn guard_plain(acc: &mut Acc) -> Result<(), String> {
     use std::os::unix::process::ExitStatusExt;
     if out.status.signal().is_some() && last.starts_with("AT ") {
         acc.outcomes.insert("guard-plain:FAULT".into());
-        fail(acc, "touches-memory-outside-the-window", format!("unoptimised build: the process died ({}) in this call: {}", out.status, &last[3..]), "guarded windows, unoptimised build".to_string());
+        let sig = if last.contains("constructing") { "process-dies-in-kernel-constructor" } else { "touches-memory-outside-the-window" };
+        fail(acc, sig, format!("unoptimised build: the process died ({}) in this call: {}", out.status, &last[3..]), "guarded windows, unoptimised build".to_string());
         return Ok(());
     }
     Err(format!("c15guard failed ({}): {}", out.status, String::from_utf8_lossy(&out.stderr)))
@@ -202,6 +208,9 @@ fn impulses<T: Flt>(acc: &mut Acc, tier: Tier, len: usize, window: WindowFunctio
     // resamplers reach it with f_cutoff * ratio > 1 too) and must give the same table everywhere
     let cutoffs: Vec<f32> = if q { vec![0.93, 1.08] } else { vec![0.93, 0.41, 1.08, 1.5, 0.02] };
     for (&os, &f_cutoff) in overs.iter().flat_map(|o| cutoffs.iter().map(move |c| (o, c))) {
+        if let Some(j) = journal {
+            j.write(&json!({"len": len, "os": os, "T": T::NAME, "f_cutoff": f_cutoff}), "constructing the scalar, SSE and AVX interpolators");
+        }
         let scalar = ScalarInterpolator::<T>::new(len, os, f_cutoff, window);
         let sse = SseInterpolator::<T>::new(len, os, f_cutoff, window).map_err(|e| format!("SSE kernel unavailable: {}", e))?;
         let avx = AvxInterpolator::<T>::new(len, os, f_cutoff, window).map_err(|e| format!("AVX kernel unavailable: {}", e))?;
@@ -439,6 +448,10 @@ impl Check for C15 {
     }
     fn run_item(&self, tier: Tier, idx: usize, journal: Option<&JournalFile>) -> Result<Value, String> {
         let item = items(tier).into_iter().nth(idx).ok_or("no item")?;
+        // (so that an item that takes the process down while it builds its kernels is localised)
+        if let Some(j) = journal {
+            j.write(&json!({"item": idx}), "start of the item (kernels are being constructed)");
+        }
         let mut acc = Acc { evals: 0, nontrivial: 0, found: vec![], outcomes: Default::default(), worst_ulps: 0.0 };
         let label;
         match item {
